@@ -42,6 +42,71 @@ impl Rng {
 }
 
 // ------------------------------------------------------------------ hook: role-directed stalls
+/// Address-reuse allocator (`--reuse-alloc`, native lane only): blocks of 256..8192 bytes are recycled LIFO through
+/// one process-wide free list per exact (size, align), so that a queue block that was just freed by one thread is the
+/// next one allocated by another. ABA windows (a packed `(block pointer, index)` word that compares equal after the
+/// block went away and came back) need exactly that and hardly ever get it from glibc's per-thread caches. Off by
+/// default, never used under ASan/Miri (it would hide use-after-free from them).
+mod reuse {
+    use std::alloc::{GlobalAlloc, Layout, System};
+    use std::sync::atomic::{AtomicBool, AtomicUsize, Ordering::*};
+    pub static ENABLED: AtomicBool = AtomicBool::new(false);
+    pub static REUSED: AtomicUsize = AtomicUsize::new(0);
+    const BUCKETS: usize = 1024; // size / 8
+    static LOCK: AtomicBool = AtomicBool::new(false);
+    static mut HEADS: [*mut u8; BUCKETS] = [std::ptr::null_mut(); BUCKETS];
+    pub struct Reuse;
+    fn bucket(l: &Layout) -> Option<usize> {
+        if l.size() >= 256 && l.size() < 8192 && l.size() % 8 == 0 && l.align() <= 64 {
+            Some(l.size() / 8)
+        } else {
+            None
+        }
+    }
+    fn lock() {
+        while LOCK.compare_exchange_weak(false, true, Acquire, Relaxed).is_err() {
+            std::hint::spin_loop();
+        }
+    }
+    unsafe impl GlobalAlloc for Reuse {
+        unsafe fn alloc(&self, l: Layout) -> *mut u8 {
+            if ENABLED.load(Relaxed) {
+                if let Some(b) = bucket(&l) {
+                    lock();
+                    let h = HEADS[b];
+                    if !h.is_null() {
+                        HEADS[b] = *(h as *mut *mut u8);
+                        LOCK.store(false, Release);
+                        REUSED.fetch_add(1, Relaxed);
+                        return h;
+                    }
+                    LOCK.store(false, Release);
+                    // every block of such a size is 64-aligned so that it can serve any request of the bucket
+                    return System.alloc(Layout::from_size_align_unchecked(l.size(), 64));
+                }
+            }
+            System.alloc(l)
+        }
+        unsafe fn dealloc(&self, p: *mut u8, l: Layout) {
+            // (a block that came from the system allocator before the switch was thrown is only taken if it happens
+            // to have the alignment every block of this list promises)
+            if ENABLED.load(Relaxed) && (p as usize) % 64 == 0 {
+                if let Some(b) = bucket(&l) {
+                    lock();
+                    *(p as *mut *mut u8) = HEADS[b];
+                    HEADS[b] = p;
+                    LOCK.store(false, Release);
+                    return;
+                }
+            }
+            System.dealloc(p, l)
+        }
+    }
+}
+#[cfg(not(miri))]
+#[global_allocator]
+static GLOBAL: reuse::Reuse = reuse::Reuse;
+
 static MIRI: AtomicBool = AtomicBool::new(false);
 static PLAN_SITE: AtomicU32 = AtomicU32::new(0);
 static PLAN_ROLE: AtomicU32 = AtomicU32::new(0);
@@ -75,6 +140,21 @@ fn hook(site: u32, _obj: usize) {
         c.set(a);
         a[s]
     });
+    if PLAN_SITE.load(Relaxed) == site && PLAN_ROLE.load(Relaxed) == role && PLAN_K.load(Relaxed) == u32::MAX && !MIRI.load(Relaxed) {
+        // every-hit mode: this role holds still for a few micro-seconds at *each* hit of the site (a busy wait, a sleep
+        // cannot be that short): every operation becomes a trial for windows that need the rest of the structure to move
+        // on by a whole block in between (ABA on a packed pointer)
+        if n == 1 {
+            STALLS_HIT.fetch_add(1, Relaxed);
+        }
+        SITE_STALLED[s].fetch_add(1, Relaxed);
+        let t0 = std::time::Instant::now();
+        let us = PLAN_US.load(Relaxed) as u128;
+        while t0.elapsed().as_micros() < us {
+            std::hint::spin_loop();
+        }
+        return;
+    }
     if PLAN_SITE.load(Relaxed) == site && PLAN_ROLE.load(Relaxed) == role && PLAN_K.load(Relaxed) == n {
         STALLS_HIT.fetch_add(1, Relaxed);
         SITE_STALLED[s].fetch_add(1, Relaxed);
@@ -506,7 +586,7 @@ fn fifo_exec(q: Arc<dyn FifoQ>, producers: usize, per: usize, prefill: usize, le
 
 // ------------------------------------------------------------------ spmc executions (C04)
 fn spmc_exec(stealers: usize, total: usize, r: &mut Rng, miri: bool) -> Result<ExecOut, String> {
-    let reg: Arc<Vec<AtomicU32>> = Arc::new((0..total + stealers + 2).map(|_| AtomicU32::new(0)).collect());
+    let reg: Arc<Vec<AtomicU32>> = Arc::new((0..total + stealers + 2 + 4 * 32).map(|_| AtomicU32::new(0)).collect());
     let (steal, mut local) = spmc::local::<Tracked>();
     let bar = Arc::new(Barrier::new(stealers + 1));
     let owner_done = Arc::new(AtomicBool::new(false));
@@ -625,14 +705,24 @@ fn spmc_exec(stealers: usize, total: usize, r: &mut Rng, miri: bool) -> Result<E
     stop.store(true, SeqCst);
     let mut overlap_taken = 0;
     let mut joined = 0;
+    let mut extra_flush = 0usize;
     // termination: a taker that over-claimed must complete now that the slots were filled
     while joined < hs.len() {
         if hs[joined].is_finished() {
             joined += 1;
             continue;
         }
+        // a taker whose claim reaches beyond the tail (ABA on the packed head word: the documented wait loop of
+        // bulk_pop) completes only when those slots are filled: keep filling, a claim never spans more than one block
+        if !miri && extra_flush < 4 * 32 && t0.elapsed() > Duration::from_millis(20 + 15 * extra_flush as u64) {
+            let c = stamp();
+            local.push_back(Tracked::new(pushed, &reg));
+            ops.push(Op { thread: 0, k: OpK::Push(pushed), c, r: stamp() });
+            pushed += 1;
+            extra_flush += 1;
+        }
         if !miri && t0.elapsed() > Duration::from_secs(20) {
-            return Err(format!("termination: a stealer did not finish 20s after the owner pushed {} flush values (claimed slot never completes)", stealers + 1));
+            return Err(format!("termination: a stealer did not finish 20s after the owner pushed {} flush values, four blocks' worth (claimed slot never completes)", stealers + 1 + extra_flush));
         }
         std::thread::yield_now();
         if !miri {
@@ -670,7 +760,7 @@ fn spmc_exec(stealers: usize, total: usize, r: &mut Rng, miri: bool) -> Result<E
 
 /// the same queue driven through `spmc::Queue` directly: owner `push`, any thread `pop` / `bulk_pop`
 fn spmcq_exec(takers: usize, total: usize, r: &mut Rng, miri: bool) -> Result<ExecOut, String> {
-    let reg: Arc<Vec<AtomicU32>> = Arc::new((0..total + takers + 80).map(|_| AtomicU32::new(0)).collect());
+    let reg: Arc<Vec<AtomicU32>> = Arc::new((0..total + takers + 80 + 4 * 32).map(|_| AtomicU32::new(0)).collect());
     let q = Arc::new(spmc::Queue::<Tracked>::new());
     let bar = Arc::new(Barrier::new(takers + 1));
     let owner_done = Arc::new(AtomicBool::new(false));
@@ -755,13 +845,22 @@ fn spmcq_exec(takers: usize, total: usize, r: &mut Rng, miri: bool) -> Result<Ex
     }
     stop.store(true, SeqCst);
     let mut joined = 0;
+    let mut extra_flush = 0usize;
     while joined < hs.len() {
         if hs[joined].is_finished() {
             joined += 1;
             continue;
         }
+        // see spmc_exec: a claim that reaches beyond the tail (ABA) completes once those slots are filled
+        if !miri && extra_flush < 4 * 32 && t0.elapsed() > Duration::from_millis(20 + 15 * extra_flush as u64) {
+            let c = stamp();
+            q.push(Tracked::new(pushed, &reg));
+            ops.push(Op { thread: 0, k: OpK::Push(pushed), c, r: stamp() });
+            pushed += 1;
+            extra_flush += 1;
+        }
         if !miri && t0.elapsed() > Duration::from_secs(20) {
-            return Err(format!("termination: a taker did not finish 20s after the owner pushed {} flush values (claimed slot never completes)", takers + 1));
+            return Err(format!("termination: a taker did not finish 20s after the owner pushed {} flush values, four blocks' worth (claimed slot never completes)", takers + 1 + extra_flush));
         }
         std::thread::yield_now();
         if !miri {
@@ -948,8 +1047,24 @@ fn listseq_exec(r: &mut Rng) -> Result<ExecOut, String> {
             return viol(format!("is_empty() = {} but the model holds {} entries | {:?}", q.is_empty(), model.len(), trace));
         }
     }
-    drop(handles);
-    drop(q);
+    // both orders of letting go: the handles first, or the list first while handles are still held (the timer list
+    // of an interval is dropped like that); a handle outliving its list must stay usable and report "already gone"
+    if r.chance(1, 2) {
+        drop(handles);
+        drop(q);
+    } else {
+        drop(q);
+        trace.push("drop(list) before the handles".into());
+        for (v, h) in handles.drain(..) {
+            if r.chance(1, 2) {
+                if let Some(t) = h.remove() {
+                    return viol(format!("remove({}) after the list was dropped returned the value {} (the list's drop consumed every entry) | {:?}", v, t.value(), trace));
+                }
+            } else {
+                drop(h);
+            }
+        }
+    }
     for v in 0..next as usize {
         let d = reg[v].load(SeqCst);
         if d != 1 {
@@ -1456,6 +1571,7 @@ fn main() {
             }
             "--thorough" => thorough = true,
             "--miri" => miri = true,
+            "--reuse-alloc" => reuse::ENABLED.store(true, SeqCst),
             _ => {}
         }
         i += 1;
@@ -1489,7 +1605,11 @@ fn main() {
         }
         // stall plan: role-directed single stall in ~70% of the executions
         let planned = r.chance(7, 10);
-        let (psite, prole, pk, pus) = if planned {
+        let (psite, prole, pk, pus) = if planned && !miri && r.chance(1, 4) {
+            // every-hit mode (see hook)
+            let s = sites[r.below(sites.len() as u64) as usize];
+            (s, r.below(4) as u32, u32::MAX, *[2u64, 6, 20, 60].get(r.below(4) as usize).unwrap())
+        } else if planned {
             let s = sites[r.below(sites.len() as u64) as usize];
             (s, r.below(4) as u32, 1 + r.below(if thorough { 12 } else { 5 }) as u32, *[200u64, 800, 2000, 5000].get(r.below(4) as usize).unwrap())
         } else {
@@ -1569,8 +1689,9 @@ fn main() {
     }
     let hits: Vec<String> = sites.iter().map(|&s| format!("\"{}\":[{},{}]", s, SITE_HITS[s as usize].load(SeqCst), SITE_STALLED[s as usize].load(SeqCst))).collect();
     println!(
-        "RESULT {{\"kind\":{},\"seed\":{},\"execs\":{},\"ops\":{},\"sigs\":{},\"nontrivial\":{},\"nontrivial_sigs\":[{}],\"stalls_hit\":{},\"site_hits_stalled\":{{{}}},\"samples\":[{}],\"violation\":{},\"wall_s\":{:.2}}}",
+        "RESULT {{\"kind\":{},\"reused_blocks\":{},\"seed\":{},\"execs\":{},\"ops\":{},\"sigs\":{},\"nontrivial\":{},\"nontrivial_sigs\":[{}],\"stalls_hit\":{},\"site_hits_stalled\":{{{}}},\"samples\":[{}],\"violation\":{},\"wall_s\":{:.2}}}",
         jstr(&kind),
+        reuse::REUSED.load(SeqCst),
         seed,
         done,
         n_ops,
